@@ -267,7 +267,10 @@ pub fn cpp_driver(case: &Case) -> Result<(String, Expected), String> {
                 let mut args = vec![];
                 let mut rust_line = format!("rust {abi}:");
                 let mut cb_lines = vec![];
-                let corrupt = salt + 1 == scripts.len() && !guarded.is_empty();
+                // the last call corrupts the first validated argument; with several validated arguments the call before
+                // it corrupts only the second one (each must be rejected on its own)
+                let corrupt_idx: Option<usize> = if guarded.is_empty() { None } else if salt + 1 == scripts.len() { Some(0) } else if salt + 2 == scripts.len() && guarded.len() > 1 { Some(1) } else { None };
+                let corrupt = corrupt_idx.is_some();
                 // receiver
                 let recv = match &m.self_param {
                     None => format!("{}::", t.name),
@@ -308,7 +311,7 @@ pub fn cpp_driver(case: &Case) -> Result<(String, Expected), String> {
                             rust_line += &format!(" {n}={}", if has_ret { cret.show() } else { "called".to_string() });
                         }
                         _ => {
-                            if corrupt && guarded.first() == Some(n) {
+                            if corrupt_idx.and_then(|i| guarded.get(i)) == Some(n) {
                                 let bad = Val::List(vec![Val::Int(0x41), Val::Int(0xff), Val::Int(0x42)]);
                                 args.push(g.init(pty, &bad));
                             } else {
